@@ -248,3 +248,7 @@ Theorem C11_no_param_writes : forall f, In f ["check_for_value"; "argsort_k"; "f
     "proportional_selection"; "rank_selection"; "tournament_selection"]%string -> In f no_param_writes.
 Proof. intros f H. repeat (destruct H as [<-|H]; [vm_compute; tauto|]). destruct H. Qed.
 Print Assumptions C11_no_param_writes.
+
+Theorem C11_code_minmax_scale : forall l, py_minmax_scale l = minmax_scale l.
+Proof. exact code_minmax_scale. Qed.
+Print Assumptions C11_code_minmax_scale.
